@@ -178,7 +178,8 @@ static xmlChar* xmlEscapePropValue(const char *str) {
     while (*it) {
         int utfLen = itEnd - it;
         int ucs = xmlGetUTF8Char(it, &utfLen);
-        if (ucs != -1) {
+        /* xmlGetUTF8Char() takes a stray continuation byte for the start of a two byte sequence */
+        if (ucs != -1 && (*it & 0xC0) != 0x80) {
             if (!isOverlongUTF8(ucs, utfLen)) {
                 if (isNonRestrictedXMLChar(ucs)) {
                     /* Valid UTF8 sequence of an allowed character */
